@@ -253,6 +253,16 @@ func TestCorrelation(t *testing.T) {
 					o.Target = 0
 				}
 				o.Addr = rapid.IntRange(0, 2).Draw(t, "addr")
+				if n := len(scripts[c]); n > 0 && scripts[c][n-1].Req.Mode == mLate {
+					// the call after a withheld reply is the interesting one: often to the same callee
+					// (its arrival releases the withheld reply), often a power of two references later
+					if rapid.Bool().Draw(t, "same-callee") {
+						o.Target, o.Addr = scripts[c][n-1].Target, scripts[c][n-1].Addr
+					}
+					if scripts[c][n-1].Target == o.Target {
+						o.Burn = rapid.SampledFrom([]int{0, 0, 16, 17, 18, 17, 18, 19}).Draw(t, "burn")
+					}
+				}
 				mode := rapid.SampledFrom([]int{mNow, mNow, mSend, mSelf, mThird, mErr, mTwice, mTwice, mStale, mStale, mCross, mCross, mLate, mLate, mLate, mNever, mDie}).Draw(t, "mode")
 				if slow(mode) {
 					if slowBudget == 0 {
@@ -274,16 +284,6 @@ func TestCorrelation(t *testing.T) {
 					case mNow, mThird, mSelf, mNever, mLate, mDie:
 					default:
 						mode = mNow
-					}
-				}
-				if n := len(scripts[c]); n > 0 && scripts[c][n-1].Req.Mode == mLate {
-					// the call after a withheld reply is the interesting one: often to the same callee
-					// (its arrival releases the withheld reply), often a power of two references later
-					if rapid.Bool().Draw(t, "same-callee") {
-						o.Target, o.Addr = scripts[c][n-1].Target, scripts[c][n-1].Addr
-					}
-					if scripts[c][n-1].Target == o.Target {
-						o.Burn = rapid.SampledFrom([]int{0, 0, 16, 17, 18, 17, 18, 19}).Draw(t, "burn")
 					}
 				}
 				o.Req = Req{ID: nextID, Mode: mode, After: rapid.Bool().Draw(t, "after")}
